@@ -62,8 +62,9 @@ func Chunkings(data string) [][]string {
 }
 
 // Alphabet builds the operation alphabet.
-//   contents: byte contents for writes; nspell: how many spellings (prefix of Spellings);
-//   views: view chains to issue every op through; escapes: include escaping spellings.
+//
+//	contents: byte contents for writes; nspell: how many spellings (prefix of Spellings);
+//	views: view chains to issue every op through; escapes: include escaping spellings.
 func Alphabet(contents []string, nspell int, views [][]string, escapes bool, readBufs []int) []GenOp {
 	var ops []GenOp
 	type pp struct{ tag, p string }
@@ -133,7 +134,9 @@ func Alphabet(contents []string, nspell int, views [][]string, escapes bool, rea
 			dsts = append(dsts, pp{"canon", pos})
 		}
 		srcs = append(srcs, pp{"dot-prefix", "./a"}, pp{"trailing-slash", "a/"}, pp{"root-dot", "."})
-		dsts = append(dsts, pp{"dot-prefix", "./b"}, pp{"trailing-slash", "b/"}, pp{"root-dot", "."}, pp{"leading-slash", "/b/b"})
+		dsts = append(dsts, pp{"dot-prefix", "./b"}, pp{"trailing-slash", "b/"}, pp{"root-dot", "."}, pp{"leading-slash", "/b/b"},
+			// a destination whose NAME continues the source's name (a -> ab, a/a -> a/ab): next to it, not below it
+			pp{"name-continues-source", "ab"}, pp{"name-continues-source-deep", "a/ab"})
 		if escapes {
 			srcs = append(srcs, pp{"escape-dotdot-a", "../a"})
 			dsts = append(dsts, pp{"escape-dotdot-a", "../b"}, pp{"escape-dotdot", ".."})
